@@ -1778,6 +1778,19 @@ def _c08_nested_harnesses(prop):
         b += "    if let Some(Err(m)) = res { panic!(\"{}\", m); }\n"
         hn = "%s_threads_nested_%s_in_%s" % (prop.lower(), inner, outer)
         out.append(Harness(hn, harness_fn(hn, b), prog, note="nested spawn macros: thread names compose"))
+    # the nested macro IS the whole branch expression, written with braces: it still runs on the branch's thread
+    inner_prog = "join_spawn! { Some(5u8) |> |y: u8| { probe(10, 1, 2); y }, Some(6u8) |> |y: u8| { probe(11, 1, 2); y } }"
+    prog = "join_spawn! { Some(0u8) |> |x: u8| { probe(0, 0, 1); x }, %s }" % inner_prog
+    body = "        let r = %s;\n        let _ = r;\n" % prog
+    body += "        let me = std::thread::current(); let c = me.name().unwrap_or(\"?\").to_string();\n"
+    body += "        for (b, want) in [(10u8, format!(\"{}_join_1_join_0\", c)), (11u8, format!(\"{}_join_1_join_1\", c))] { if probe_thread_name(b, 1) != Some(want.clone()) { return Err(format!(\"C08: nested branch {} ran on {:?}, expected {:?}\", b - 10, probe_thread_name(b, 1), want)); } }\n"
+    body += "        Ok(())\n"
+    b = "    probe_reset();\n    let run = move || -> Result<(), String> {\n%s    };\n" % body
+    b += "    let res = with_watchdog(move || std::thread::Builder::new().name(\"caller\".into()).spawn(run).unwrap().join().unwrap());\n"
+    b += "    assert!(res.is_some(), \"C08: the macro did not return within 25 s\");\n"
+    b += "    if let Some(Err(m)) = res { panic!(\"{}\", m); }\n"
+    hn = "%s_threads_nested_bare_branch" % prop.lower()
+    out.append(Harness(hn, harness_fn(hn, b), prog, note="a brace-written spawn macro as a whole branch"))
     return out
 
 
